@@ -438,6 +438,13 @@ private:
             ctx_manager->create(g);
             validate_group_header(g);
             validate_members(g);
+            validate_header_value(
+                g.dimension_type,
+                "group",
+                "blockLength",
+                ctx_manager->get(g).actual_block_length,
+                "blockLength",
+                g.location);
         }
 
         for(const auto& d : members.data)
@@ -448,17 +455,69 @@ private:
         }
     }
 
+    // values written by `fill_message_header`/`fill_group_header` must be
+    // representable by the corresponding header element
+    template<typename T>
+    void validate_header_value(
+        const std::string_view header_type,
+        const std::string_view level_name,
+        const std::string_view element_name,
+        const T value,
+        const std::string_view value_name,
+        const source_location& location) const
+    {
+        const auto& header = std::get<sbe::composite>(*get_encoding(header_type));
+        const auto& [t, element_location] =
+            get_level_header_element(header, level_name, element_name);
+        (void)element_location;
+        if(!value_fits_into_type(fmt::format("{}", value), t.primitive_type))
+        {
+            throw_error(
+                "{}: {} ({}) cannot be represented by {} header element `{}` of "
+                "type `{}`",
+                location,
+                value_name,
+                value,
+                level_name,
+                element_name,
+                t.primitive_type);
+        }
+    }
+
     void validate_message(const sbe::message& m)
     {
         validate_name(m);
         validate_versions(m);
         ctx_manager->create(m);
         validate_members(m);
+        validate_header_value(
+            schema->header_type, "message", "templateId", m.id, "id", m.location);
+        validate_header_value(
+            schema->header_type,
+            "message",
+            "blockLength",
+            ctx_manager->get(m).actual_block_length,
+            "blockLength",
+            m.location);
     }
 
     void validate_messages()
     {
         validate_message_header();
+        validate_header_value(
+            schema->header_type,
+            "message",
+            "schemaId",
+            schema->id,
+            "schema id",
+            schema->location);
+        validate_header_value(
+            schema->header_type,
+            "message",
+            "version",
+            schema->version,
+            "schema version",
+            schema->location);
 
         for(const auto& m : schema->messages)
         {
